@@ -119,6 +119,12 @@ def check_expand(root, what):
         if v in after and nat.snapshot(v) != src_snaps[k] and not any(r.parent is v for r in refs):
             return fail("source-changed", f"the referenced element {k} was changed")
     live = all_nodes(root)
+    # the copies are independent at every depth: below the expanded tree every node's parent link names the node that lists it
+    for x in live:
+        for c in x.children:
+            if c.parent is not x:
+                return fail("parent-deep", f"after expansion the parent link of {c.name} (under {x.name}) names "
+                                           f"{c.parent.name if c.parent is not None else None} instead of the node that lists it: the copy is not independent of its source")
     if len({id(x) for x in live}) != len(live):
         return fail("shared", "a node occurs twice in the expanded tree (copies are not independent)")
     if {x.id for x in live} - set(Node.store) or any(Node.store.get(x.id) is not x for x in live):
